@@ -34,13 +34,18 @@ CLAIMED = {
     ),
     "C19": (
         "Coq proof (invariants by induction over arbitrary message histories; prefix lemmas; refutations by computed witnesses) + correspondence on the real FaultLog + breadth-first history search",
-        "10 theorems in coq/props/C19.v about coq/model/M_Faultlog.v (= FaultLog._insert_into_map/_process_msg over an association-list "
+        "13 theorems in coq/props/C19.v about coq/model/M_Faultlog.v (= FaultLog._insert_into_map/_process_msg over an association-list "
         "OrderedDict): for EVERY message history no entry is invented, the view never raises (map values = keys of the entry store), "
         "indices are unique; read-through from an empty view and push-down on a gap-free view are proved (_partial); the full "
         "no-duplicates / push-down / read-through statements are REFUTED with witnesses that are replayed on the implementation "
-        "(KNOWN_FINDINGS.json). Tie: _insert_into_map on random+reachable maps and whole histories of real 0418 messages through "
+        "(KNOWN_FINDINGS.json). Against the property's 64-deep log (LOG_DEPTH is the property's constant, MAXIDX is regenerated from "
+        "FaultLog._MAX_LOG_IDX): the cut-off is the last slot, NO history puts an entry at an index beyond the log, and for a completely "
+        "known log of any length a delivered announcement leaves the view equal to the controller's new log. "
+        "Tie: _insert_into_map on random+reachable maps and whole histories of real 0418 messages through "
         "the real class are compared with the model (maps incl. order, entry store); the oracle enumerates controller-consistent "
-        "histories breadth-first on the real function and classifies every violation by cause.",
+        "histories breadth-first on the real function and classifies every violation by cause; a second oracle drives the real class "
+        "with real 0418 messages against an independently simulated 64-deep controller log (clean histories around the full depth: "
+        "exact equality after read-throughs and announcements; random histories with losses: index bound, views total).",
         "Trusted: Coq kernel, harness. Modelled not verified: timestamps as integers (string order within one century), the "
         "controller simulator, get_faultlog's send loop (only its message processing is modelled). FAULTLOG_MAX_LOG_IDX is regenerated.",
         "6 (C19)",
@@ -155,14 +160,20 @@ CLAIMED = {
     ),
     "C18": (
         "Coq proof (lock discipline for every fault position and every history of transfers by case analysis / induction; version bookkeeping of the reassembly by induction) + correspondence and fault-injection oracle on real Schedule/Zone objects with a scripted controller",
-        "6 theorems in coq/props/C18.v about coq/model/M_Transfer.v (= _obtain_lock/_release_lock around Schedule._get_schedule / "
+        "8 theorems in coq/props/C18.v about coq/model/M_Transfer.v (= _obtain_lock/_release_lock around Schedule._get_schedule / "
         "set_schedule with a fault -- an exchange raising, or the caller's timeout cancelling -- at any await; _update_payload_set over "
         "version-tagged fragments): whatever faults hit a transfer it never leaves the lock held; after ANY history of transfers the lock "
         "is free and no transfer ever waited for it; a schedule is only assembled from a full set of ONE version (under the idealisation "
-        "that zlib's checksum rejects a mixed set); the pre-repair lock leak is the refuted witness. PARTIAL: 'always ends' and the "
-        "RQ/RP exchanges are not in the model -- decided by the oracle. Tie/oracle: a replay gateway's real zones, gwy.async_send_cmd "
+        "that zlib's checksum rejects a mixed set); an UNDISTURBED fetch (the loop of _get_schedule against a controller holding one "
+        "version) ends with that version within 2*total exchanges from ANY stale payload set, so nothing a failed, abandoned or "
+        "overtaken transfer leaves behind can stop a later one; the pre-repair lock leak is the refuted witness. PARTIAL: 'always ends' "
+        "for DISTURBED transfers rests on the caller's timeout (asyncio.wait_for), which is not in the model -- decided by the oracle. "
+        "Tie: vfeed / fetch of the model are compared with the real _update_payload_set / _get_schedule on fragments of 5-7 versions "
+        "of one zone's schedule (same and different fragment counts, one-fragment sets; slots, assembled version, number of exchanges). Oracle: a replay gateway's real zones, gwy.async_send_cmd "
         "replaced by a scripted controller (change counter, per-zone fragment sets), ONE fault (raise / never answer / schedule changed "
-        "on the controller) injected at EVERY await index in turn, then a probe transfer of another zone; concurrent transfers of 2-3 zones.",
+        "on the controller / schedule shrunk to one fragment) injected at EVERY await index in turn, then forced probe transfers of the SAME "
+        "and of another zone which must return the controller's current schedule; changes between transfers; one-fragment schedules; "
+        "concurrent transfers of 2-3 zones.",
         "Trusted: Coq kernel, harness (virtual loop, virtual datetime substituted into ramses_rf.system.heat). Not modelled: the "
         "dispatcher path by which overheard 0404 replies reach Schedule._handle_msg, threading.Lock (single-threaded use).",
         "6 (C18)",
